@@ -846,6 +846,17 @@ func (r *reader) read(src []byte) {
 			r.pushChar(src)
 		case intMode:
 			r.pushInteger(src)
+		case bitVectorMode:
+			bv := ReadBitVector(r.makeToken(src))
+			if 0 < len(r.stack) {
+				r.stack = append(r.stack, bv)
+			} else {
+				r.code = append(r.code, bv)
+			}
+		case sharpMode, sharpNumMode:
+			r.partial("sharp macro not terminated")
+		case blockCommentMode, blockEndMode:
+			r.partial("block comment not terminated")
 		}
 		if 0 < len(r.stack) {
 			r.partial("list not terminated")
